@@ -91,6 +91,7 @@ def run(prop, a, seed, t0):
     open_known = [k for k in known if k.get("status", "open") == "open"]
 
     violations, undecided, stale, errors, known_hits = [], [], [], [], []
+    slow = []
     n_ob = n_ok = 0
     by_kind, by_backend = {}, {}
     solver_time = 0.0
@@ -125,6 +126,8 @@ def run(prop, a, seed, t0):
                 continue
             n_ob += 1
             by_kind[o["kind"]] = by_kind.get(o["kind"], 0) + 1
+            if res["time"] > 4.0:
+                slow.append((round(res["time"], 1), o["name"], res["backend"]))
             if o["ok"]:
                 n_ok += 1
                 by_backend[res["backend"]] = by_backend.get(res["backend"], 0) + 1
@@ -172,9 +175,11 @@ def run(prop, a, seed, t0):
         out_lines.append(f"VIOLATION property={prop.id} replay={rel}" + ("" if found_input else " no-failing-input-found"))
         n_viol += 1
 
-    for r, o, why in violations:
-        witness = None
-        witness = guarded(prop.replay, (W, r, o), 240, None)
+    replay_budget = time.time() + 360  # all native replays of one run share this budget
+    for n_v, (r, o, why) in enumerate(violations):
+        # replay the first few failed obligations natively (each in its own guarded child)
+        left = replay_budget - time.time()
+        witness = guarded(prop.replay, (W, r, o), min(120, left), None) if n_v < 6 and left > 10 else None
         payload = dict(property=prop.id, obligation=o["name"], kind=o["kind"], function=r["key"], where=o["where"], verdict=why, solver=o["result"], witness=witness,
                        how_to_replay=f"./check {prop.id} --replay <this file>")
         report_violation(base_name(o["name"]), payload, json.dumps(witness, ensure_ascii=False, default=str) if witness else "", witness is not None)
@@ -244,6 +249,7 @@ def run(prop, a, seed, t0):
             paper_steps=prop.paper_steps,
             samples=samples or [dict(obligation=g.name, kind="ground") for g in grounds[:3]],
             undecided=[o["name"] for _, o in undecided],
+            slow_obligations=[dict(seconds=t, obligation=n, backend=b) for t, n, b in sorted(slow, reverse=True)[:10]],
             stale=[r["key"] for r in stale_unresolved],
         ),
         assumptions=assumptions,
@@ -251,6 +257,9 @@ def run(prop, a, seed, t0):
         violations=n_viol,
     )
     json.dump(ev, open(os.path.join(ROOT, "evidence", prop.id + ".json"), "w", encoding="utf-8"), indent=1, ensure_ascii=False)
+    if slow and a.v:
+        for t, n, b in sorted(slow, reverse=True)[:10]:
+            print(f"slow: {t}s {b} {n}")
     print(f"{prop.id}: obligations={n_ob} discharged={n_ok} known-finding-suppressed={suppressed} violations={n_viol} undecided={len(undecided)} stale={len(stale_unresolved)} wall={time.time()-t0:.1f}s")
     if errors:
         return 3
